@@ -189,7 +189,13 @@ def main():
             if kb:
                 keys = ['q', 'w', 'e', 'a', 's', '1', '2', '3', '!', '@', 'Q', 'z']
                 gen = itertools.chain(CURATED, (''.join(t) for L in range(1, (6 if a.tier == 'quick' else 7)) for t in itertools.product(keys[:(12 if L <= 4 else 8)], repeat=L)))
+            import signal
+
+            def _alarm(signum, frame):
+                raise TimeoutError('segmentation of one password did not finish within 5 s')
+            signal.signal(signal.SIGALRM, _alarm)
             for pw in gen:
+                signal.alarm(5)
                 if kb:
                     sl, walks, _ = m['keyboard_walk'].detect_keyboard_walk(pw)
                     m['other_detection'].other_detection(sl)      # label the rest so that judge() can run
@@ -198,6 +204,7 @@ def main():
                 else:
                     sl, found = segment(m, det, pw)
                     why = judge(m, pw, sl, found)
+                signal.alarm(0)
                 cases += 1
                 if len(sl) > 1 or (kb and any(l[0] == 'K' for _, l in sl)):
                     nontrivial += 1
